@@ -993,3 +993,146 @@ func cycleGuardIsPathScoped(w *World, r *Report, prop string) {
 	}
 	r.note("%s: recursion guards of sample emitters examined: %d", rule, n)
 }
+
+// C17/sample-key-and-payload-from-one-pair: the emitted self-test of a packet with a match field fills in the key member and the
+// payload member; the decoder rebuilds the payload from the key. The two are emitted by different routines of a generator's test
+// emitters, each picking "the sample alternative" of the match table itself. They agree as long as every one of them picks the same
+// way. Decided per generator: the places where a test emitter selects one pair out of MatchFieldAttribute.MatchPairs (a constant
+// index, or a helper that returns one pair / one member of a pair - evaluated: a helper that always returns element 0 is "index 0")
+// all select by the same rule. A payload taken from "the first alternative whose packet has members" next to a key taken from
+// alternative 0 round-trips to another packet than the test built.
+func sampleKeyAndPayloadFromOnePair(w *World, r *Report, prop string) {
+	rule := prop + "/sample-key-and-payload-from-one-pair"
+	isPairs := func(v ssa.Value) bool {
+		ld, ok := stripIdentity(v).(*ssa.UnOp)
+		if !ok || ld.Op != token.MUL {
+			return false
+		}
+		fa, ok := ld.X.(*ssa.FieldAddr)
+		if !ok {
+			return false
+		}
+		tn, f, _, _ := fieldOf(fa)
+		return tn == "MatchFieldAttribute" && f == "MatchPairs"
+	}
+	// the selectors a function applies to a match table: "index N" for constant indices outside loops over the table
+	var selectorsOf func(fn *ssa.Function, depth int) map[string]string
+	selectorsOf = func(fn *ssa.Function, depth int) map[string]string {
+		out := map[string]string{}
+		if fn == nil || fn.Blocks == nil || depth > 2 {
+			return out
+		}
+		forEachInstr(fn, func(_ *ssa.BasicBlock, ins ssa.Instruction) {
+			switch x := ins.(type) {
+			case *ssa.IndexAddr:
+				if !isPairs(x.X) {
+					return
+				}
+				if k, ok := x.Index.(*ssa.Const); ok && k.Value != nil {
+					out["index "+k.Value.String()] = w.instrPos(x)
+				}
+			case *ssa.Call:
+				g := x.Call.StaticCallee()
+				if g == nil || g == fn || !w.isSubjectFunc(g) || !isGeneratorFunc(g) {
+					return
+				}
+				// a helper handed the match attribute that hands back a pair (or a string taken from one)
+				takes := false
+				for _, a := range x.Call.Args {
+					if modelTypeName(derefType(a.Type())) == "MatchFieldAttribute" {
+						takes = true
+					}
+				}
+				if !takes {
+					return
+				}
+				res := x.Type()
+				isPair := modelTypeName(derefType(res)) == "MatchPair"
+				if bt, ok := res.Underlying().(*types.Basic); ok && bt.Kind() == types.String {
+					isPair = true
+				}
+				if !isPair {
+					return
+				}
+				inner := selectorsOf(g, depth+1)
+				loops := false
+				forEachInstr(g, func(b *ssa.BasicBlock, i2 ssa.Instruction) {
+					if b.Comment == "rangeindex.loop" || b.Comment == "rangeindex.body" {
+						for _, i3 := range b.Instrs {
+							if ia, ok := i3.(*ssa.IndexAddr); ok && isPairs(ia.X) {
+								loops = true
+							}
+						}
+					}
+				})
+				if !loops && len(inner) == 1 {
+					for k, p := range inner {
+						out[k] = p
+					}
+					return
+				}
+				if loops || len(inner) > 0 {
+					out["the choice made by "+fnKey(g)] = w.instrPos(x)
+				}
+			}
+		})
+		return out
+	}
+	byGen := map[string]map[string]string{}
+	for _, fn := range w.srcFuncs {
+		if !w.isSubjectFunc(fn) || fn.Blocks == nil || !isGeneratorFunc(fn) || roleOf(fn) != "test" {
+			continue
+		}
+		g := recvNamedCore(fn)
+		// a helper that is itself a selector is judged at its callers
+		for k, p := range selectorsOf(fn, 0) {
+			if byGen[g] == nil {
+				byGen[g] = map[string]string{}
+			}
+			if _, ok := byGen[g][k]; !ok {
+				byGen[g][k] = fnKey(fn) + " (" + p + ")"
+			}
+		}
+	}
+	n := 0
+	for _, g := range sortedStringKeys(byGen) {
+		sel := byGen[g]
+		n++
+		key := g + ": the sample's key and payload are taken from one alternative of the match table"
+		if len(sel) <= 1 {
+			r.pass(rule, key, "", "")
+			continue
+		}
+		var parts []string
+		for _, k := range sortedStringKeys2(sel) {
+			parts = append(parts, k+" in "+sel[k])
+		}
+		r.fail(rule, key, "", "the test emitters of "+g+" pick the sample alternative of a match table in different ways: "+strings.Join(parts, "; ")+" - where they disagree the emitted test fills in the key of one alternative and the payload of another, and the decoded message is not the one the test built")
+	}
+	r.note("%s: generators with sample selections: %d", rule, n)
+}
+
+func derefType(t types.Type) types.Type {
+	if p, ok := t.Underlying().(*types.Pointer); ok {
+		return p.Elem()
+	}
+	return t
+}
+
+func sortedStringKeys(m map[string]map[string]string) []string {
+	var out []string
+	for k := range m {
+		out = append(out, k)
+	}
+	sort.Strings(out)
+	return out
+}
+
+func sortedStringKeys2(m map[string]string) []string {
+	var out []string
+	for k := range m {
+		out = append(out, k)
+	}
+	sort.Strings(out)
+	return out
+}
